@@ -6,6 +6,7 @@ import (
 	"fmt"
 	"go/ast"
 	"go/parser"
+	"go/scanner"
 	"go/token"
 	"go/types"
 	"os"
@@ -39,6 +40,7 @@ type Contract struct {
 	Func    string // "Name" or "(*T).Name" or "(T).Name"
 	Clauses []*Clause
 	Options map[string]bool
+	Broken  string // non-empty: the contract does not fit the current code
 	Props   []string
 	File    string
 	Line    int
@@ -482,6 +484,9 @@ func loadWorldF(repoDir string, ff *FindingsFile) (*World, error) {
 	}
 	// resolve predicate functions
 	for _, c := range w.Contracts {
+		if c.Broken != "" {
+			continue
+		}
 		sp := w.SSA[c.Pkg]
 		for _, cl := range c.Clauses {
 			if cl.Pred == "" {
@@ -509,7 +514,36 @@ func (i *worldImporter) Import(path string) (*types.Package, error) {
 	return nil, fmt.Errorf("package %s not loaded", path)
 }
 
+// processRepoPackage generates the overlay of one package. A contract that no
+// longer fits the code (its function is gone, a loop ordinal does not exist, a clause
+// does not type-check against the current declarations) is marked broken and left
+// out, so that only the properties depending on it are affected.
 func (w *World) processRepoPackage(p *packages.Package, imp types.Importer) error {
+	broken := map[string]string{}
+	for attempt := 0; attempt < 60; attempt++ {
+		id, reason, err := w.processRepoPackageOnce(p, imp, broken)
+		if err != nil {
+			return err
+		}
+		if id == "" {
+			return nil
+		}
+		broken[id] = reason
+		for k, c := range w.Contracts {
+			if c.Pkg == p.PkgPath {
+				delete(w.Contracts, k)
+			}
+		}
+		for _, f := range w.Findings.Findings {
+			if strings.HasSuffix(p.PkgPath, f.Pkg) {
+				f.Pred = ""
+			}
+		}
+	}
+	return fmt.Errorf("too many broken contracts in %s", p.PkgPath)
+}
+
+func (w *World) processRepoPackageOnce(p *packages.Package, imp types.Importer, broken map[string]string) (string, string, error) {
 	// 1. contracts
 	var contracts []*Contract
 	for _, f := range p.CompiledGoFiles {
@@ -518,11 +552,11 @@ func (w *World) processRepoPackage(p *packages.Package, imp types.Importer) erro
 		}
 		src, err := os.ReadFile(f)
 		if err != nil {
-			return err
+			return "", "", err
 		}
 		cs, err := parseContracts(p.PkgPath, f, src)
 		if err != nil {
-			return err
+			return "", "", err
 		}
 		contracts = append(contracts, cs...)
 	}
@@ -551,13 +585,17 @@ func (w *World) processRepoPackage(p *packages.Package, imp types.Importer) erro
 	inserts := map[string][]ins{} // filename -> insertions
 	for _, c := range contracts {
 		if _, dup := w.Contracts[c.id()]; dup {
-			return fmt.Errorf("%s:%d: duplicate contract for %s", c.File, c.Line, c.Func)
+			return "", "", fmt.Errorf("%s:%d: duplicate contract for %s", c.File, c.Line, c.Func)
+		}
+		w.Contracts[c.id()] = c
+		c.Broken = broken[c.id()]
+		if c.Broken != "" {
+			continue
 		}
 		fd := decls[c.Func]
 		if fd == nil {
-			return fmt.Errorf("%s:%d: contract names function %q which does not exist in package %s", c.File, c.Line, c.Func, p.PkgPath)
+			return c.id(), fmt.Sprintf("the contract names function %q which does not exist in package %s", c.Func, p.PkgPath), nil
 		}
-		w.Contracts[c.id()] = c
 		obj := p.TypesInfo.Defs[fd.Name].(*types.Func)
 		sig := obj.Type().(*types.Signature)
 		var params, results []string
@@ -638,7 +676,7 @@ func (w *World) processRepoPackage(p *packages.Package, imp types.Importer) erro
 				}
 			case "invariant", "decreases":
 				if cl.Loop < 0 || cl.Loop >= len(loops) {
-					return fmt.Errorf("%s:%d: %s has %d loops, clause names loop %d", cl.File, cl.Line, c.Func, len(loops), cl.Loop)
+					return c.id(), fmt.Sprintf("%s has %d loops, a clause names loop %d", c.Func, len(loops), cl.Loop), nil
 				}
 				lp := loops[cl.Loop]
 				var body *ast.BlockStmt
@@ -651,11 +689,11 @@ func (w *World) processRepoPackage(p *packages.Package, imp types.Importer) erro
 				// locals used by the expression
 				ex, err := parser.ParseExpr(expr)
 				if err != nil {
-					return fmt.Errorf("%s:%d: cannot parse clause expression: %v\n  %s", cl.File, cl.Line, err, expr)
+					return c.id(), fmt.Sprintf("clause at line %d does not parse: %v", cl.Line, err), nil
 				}
 				scope := p.TypesInfo.Scopes[body]
 				if scope == nil {
-					return fmt.Errorf("%s:%d: no scope for loop body", cl.File, cl.Line)
+					return c.id(), "no scope for loop body", nil
 				}
 				var locals []string
 				var ltypes []string
@@ -724,8 +762,8 @@ func (w *World) processRepoPackage(p *packages.Package, imp types.Importer) erro
 			}
 		}
 		fd := decls[parts[0]]
-		if fd == nil {
-			return fmt.Errorf("known finding %s names function %q which does not exist in %s", f.ID, parts[0], p.PkgPath)
+		if fd == nil || broken[p.PkgPath+"."+parts[0]] != "" || broken["finding:"+f.ID] != "" {
+			continue
 		}
 		obj := p.TypesInfo.Defs[fd.Name].(*types.Func)
 		sig := obj.Type().(*types.Signature)
@@ -820,7 +858,7 @@ func (w *World) processRepoPackage(p *packages.Package, imp types.Importer) erro
 	for file, list := range inserts {
 		src, err := os.ReadFile(file)
 		if err != nil {
-			return err
+			return "", "", err
 		}
 		sort.Slice(list, func(i, j int) bool { return list[i].off < list[j].off })
 		var out bytes.Buffer
@@ -843,18 +881,18 @@ func (w *World) processRepoPackage(p *packages.Package, imp types.Importer) erro
 			if src, ok := instr[f]; ok {
 				af, err := parser.ParseFile(w.Fset, f, src, parser.ParseComments)
 				if err != nil {
-					return fmt.Errorf("instrumented %s: %v", f, err)
+					return "", "", fmt.Errorf("instrumented %s: %v", f, err)
 				}
 				files = append(files, af)
 			} else {
 				// re-parse to obtain fresh AST objects (type info maps are per check)
 				src, err := os.ReadFile(f)
 				if err != nil {
-					return err
+					return "", "", err
 				}
 				af, err := parser.ParseFile(w.Fset, f, src, parser.ParseComments)
 				if err != nil {
-					return err
+					return "", "", err
 				}
 				files = append(files, af)
 				_ = i
@@ -863,7 +901,10 @@ func (w *World) processRepoPackage(p *packages.Package, imp types.Importer) erro
 		if genFile != "" {
 			af, err := parser.ParseFile(w.Fset, genFile, w.GenSrc[genFile], parser.ParseComments)
 			if err != nil {
-				return fmt.Errorf("generated predicates for %s do not parse: %v\n%s", p.PkgPath, err, numbered(w.GenSrc[genFile]))
+				if id := w.ownerOfGenError(p, err, genFile, decls, contracts); id != "" {
+					return id, fmt.Sprintf("a clause does not parse: %v", err), nil
+				}
+				return "", "", fmt.Errorf("generated predicates for %s do not parse: %v\n%s", p.PkgPath, err, numbered(w.GenSrc[genFile]))
 			}
 			files = append(files, af)
 		}
@@ -881,17 +922,76 @@ func (w *World) processRepoPackage(p *packages.Package, imp types.Importer) erro
 	conf := types.Config{Importer: imp, Error: func(err error) { terrs = append(terrs, err) }, GoVersion: "go1.22"}
 	tp, _ := conf.Check(p.PkgPath, w.Fset, files, info)
 	if len(terrs) > 0 {
+		for _, e := range terrs {
+			if id := w.ownerOfGenError(p, e, genFile, decls, contracts); id != "" {
+				return id, fmt.Sprintf("a clause does not type-check against the current code: %v", e), nil
+			}
+		}
 		var b strings.Builder
 		for _, e := range terrs {
 			fmt.Fprintf(&b, "  %v\n", e)
 		}
-		return fmt.Errorf("contracts of %s do not type-check:\n%s", p.PkgPath, b.String())
+		return "", "", fmt.Errorf("contracts of %s do not type-check:\n%s", p.PkgPath, b.String())
 	}
 	w.Types[p.PkgPath] = tp
 	w.Info[p.PkgPath] = info
 	w.Files[p.PkgPath] = files
 	w.SSA[p.PkgPath] = w.Prog.CreatePackage(tp, files, info, true)
-	return nil
+	return "", "", nil
+}
+
+var genFuncRe = regexp.MustCompile(`^func (vc[A-Z]_[A-Za-z0-9_]+)\(`)
+
+// ownerOfGenError maps an error position in the generated or instrumented sources
+// to the contract (or finding) it belongs to.
+func (w *World) ownerOfGenError(p *packages.Package, err error, genFile string, decls map[string]*ast.FuncDecl, contracts []*Contract) string {
+	var file string
+	var line int
+	switch e := err.(type) {
+	case types.Error:
+		pos := e.Fset.Position(e.Pos)
+		file, line = pos.Filename, pos.Line
+	case scanner.ErrorList:
+		if len(e) > 0 {
+			file, line = e[0].Pos.Filename, e[0].Pos.Line
+		}
+	default:
+		return ""
+	}
+	if file == genFile {
+		lines := strings.Split(w.GenSrc[genFile], "\n")
+		for l := line - 1; l >= 0 && l < len(lines); l-- {
+			if m := genFuncRe.FindStringSubmatch(lines[l]); m != nil {
+				name := m[1]
+				for _, c := range contracts {
+					for _, cl := range c.Clauses {
+						if cl.Pred == name || cl.Pred+"_ant" == name {
+							return c.id()
+						}
+					}
+				}
+				for _, f := range w.Findings.Findings {
+					if f.Pred == name {
+						return "finding:" + f.ID
+					}
+				}
+				return ""
+			}
+		}
+		return ""
+	}
+	// instrumented source: the enclosing function
+	for name, fd := range decls {
+		a, b := w.Fset.Position(fd.Pos()), w.Fset.Position(fd.End())
+		if a.Filename == file && a.Line <= line && line <= b.Line {
+			for _, c := range contracts {
+				if c.Func == name {
+					return c.id()
+				}
+			}
+		}
+	}
+	return ""
 }
 
 func numbered(s string) string {
@@ -957,5 +1057,8 @@ func (w *World) contractFor(fn *ssa.Function) *Contract {
 			name = "(" + n.Obj().Name() + ")." + fn.Name()
 		}
 	}
-	return w.Contracts[fn.Pkg.Pkg.Path()+"."+name]
+	if c := w.Contracts[fn.Pkg.Pkg.Path()+"."+name]; c != nil && c.Broken == "" {
+		return c
+	}
+	return nil
 }
